@@ -26,17 +26,11 @@ fn compiler_with_len(len: usize) -> Compiler {
     c
 }
 
-// @props C05
-// @fns Compiler::push_jump_back_op (JumpBack of loop / while / until / for), Compiler::push_op_without_span, Compiler::push_bytes
-// @bound code length <= 69000 bytes (the u16 boundary 65535 is inside), any target ip <= length
-// @assume the jump target lies at or before the current end of the code (loop start ips are recorded before the body is compiled)
-#[kani::proof]
-#[kani::unwind(4)]
-#[kani::stub(std::hash::RandomState::new, stub_random_state)]
-fn c05_jump_back() {
-    let len: usize = kani::any();
+// The code length is concrete per call (a symbolic length makes CBMC explore Vec's reallocation path over a
+// 69 kB buffer: segfault / no result), the jump target is symbolic, so every distance 3..=len+3 is covered.
+fn jump_back(len: usize) {
     let target: usize = kani::any();
-    kani::assume(len <= CAP && target <= len);
+    kani::assume(target <= len);
     let mut c = compiler_with_len(len);
     let r = c.push_jump_back_op(Op::JumpBack, &[], target);
     match r {
@@ -53,9 +47,23 @@ fn c05_jump_back() {
             std::mem::forget(e);
         }
     }
-    kani::cover!(len + 3 - target == 65535, "largest encodable distance");
-    kani::cover!(len + 3 - target == 65536, "smallest distance that must be rejected");
+    kani::cover!(len + 3 - target == 65535 || len < 65532, "largest encodable distance");
+    kani::cover!(len + 3 - target == 65536 || len < 65533, "smallest distance that must be rejected");
     std::mem::forget(c);
+}
+
+// @props C05
+// @fns Compiler::push_jump_back_op (JumpBack of loop / while / until / for), Compiler::push_op_without_span, Compiler::push_bytes
+// @bound code lengths 2, 65532, 65533 and 69000 (concrete), every target ip <= length (symbolic): every distance from 3 to 69003, the u16 boundary 65535 / 65536 included
+// @assume the jump target lies at or before the current end of the code (loop start ips are recorded before the body is compiled)
+#[kani::proof]
+#[kani::unwind(4)]
+#[kani::stub(std::hash::RandomState::new, stub_random_state)]
+fn c05_jump_back() {
+    jump_back(2);
+    jump_back(65532);
+    jump_back(65533);
+    jump_back(69000);
 }
 
 fn jump_forward(pos: usize) {
@@ -93,19 +101,31 @@ fn c05_jump_forward() {
     jump_forward(7);
 }
 
+fn placeholder_pair(len: usize) {
+    let mut c = compiler_with_len(len);
+    let ip = c.push_offset_placeholder();
+    assert!(ip == len && c.bytes.len() == len + 2, "C05.jfwd: the placeholder is the two bytes at the returned ip");
+    // patch it right away: distance zero
+    match c.update_offset_placeholder(ip) {
+        Ok(()) => assert!(c.bytes[ip] == 0 && c.bytes[ip + 1] == 0, "C05.jfwd: a jump to the next instruction has offset zero"),
+        Err(e) => {
+            std::mem::forget(e);
+            assert!(false, "C05.jfwd: distance zero always fits");
+        }
+    }
+    std::mem::forget(c);
+}
+
 // @props C05
 // @fns Compiler::push_offset_placeholder, Compiler::update_offset_placeholder
-// @bound placeholder pushed at an arbitrary code length <= 1000, then between 0 and 68000 further bytes appended (length only)
+// @bound placeholder pushed at code lengths 0, 5 and 65535 and patched immediately
 #[kani::proof]
 #[kani::unwind(4)]
 #[kani::stub(std::hash::RandomState::new, stub_random_state)]
 fn c05_jump_placeholder_pair() {
-    let len: usize = kani::any();
-    kani::assume(len <= 8);
-    let mut c = compiler_with_len(len);
-    let ip = c.push_offset_placeholder();
-    assert!(ip == len && c.bytes.len() == len + 2, "C05.jfwd: the placeholder is the two bytes at the returned ip");
-    std::mem::forget(c);
+    placeholder_pair(0);
+    placeholder_pair(5);
+    placeholder_pair(65535);
 }
 
 fn varint_roundtrip(op: Op) {
